@@ -3,6 +3,7 @@ package c17
 import (
 	"sort"
 	"strconv"
+	"strings"
 
 	"verif/harness/internal/core"
 )
@@ -342,6 +343,29 @@ func (P) Gen(r *core.Rand, tier string, emit func([]string)) {
 	}
 	for i := 0; i < nLong; i++ {
 		emit(randomHistory(r, r.Range(150, 400)))
+	}
+	// long histories in the other dimension: one op (or a short round) repeated n times on a
+	// small fixed state, n around the powers of two. Rounds that record new entries make the Lean
+	// heap model slow (its fields are function closures that only grow): those stop at 4097.
+	counts := []int{255, 256, 257, 1023, 1024, 1025, 4097}
+	if tier == "thorough" {
+		counts = []int{63, 64, 65, 127, 128, 129, 255, 256, 257, 511, 512, 513, 1023, 1024, 1025, 2047, 2048, 2049, 4095, 4096, 4097, 8193}
+	}
+	for _, n := range counts {
+		for _, pre := range []string{"a", "abA", "baB"} {
+			for _, unit := range []string{"x", "e", "a", "A", "1", "4", "xe", "r", "bBx", "cx", "bx2"} {
+				growing := strings.ContainsAny(unit, "abcABC")
+				if growing && unit != "a" && unit != "A" && n > 4097 {
+					continue
+				}
+				if tier != "thorough" && pre == "baB" && unit != "x" && unit != "bBx" {
+					continue
+				}
+				// afterwards: the late response, a drain (must return the entry if it is still
+				// there), export, the ID again with its own response, drain, export
+				emit([]string{"rep " + strconv.Itoa(n) + " " + pre + " " + unit + " AxeaAxe"})
+			}
+		}
 	}
 	// the handler level, schedule by schedule
 	if tier == "thorough" {
